@@ -111,6 +111,55 @@ func (v *vfs) resolve(p string, root string, depth int) (string, *vnode, error) 
 	return cur, v.nodes[cur], nil
 }
 
+// resolveInRoot resolves rel against the root directory the way os.Root
+// does: component by component, ".." may never step above the root (even if
+// a later component would come back in), symlinks are followed and must stay
+// inside as well.
+func (v *vfs) resolveInRoot(root, rel string, depth int) (string, *vnode, error) {
+	if depth > 16 {
+		return "", nil, fmt.Errorf("too many levels of symbolic links")
+	}
+	cur := root
+	parts := strings.Split(rel, "/")
+	for i, part := range parts {
+		switch part {
+		case "", ".":
+			continue
+		case "..":
+			if cur == root {
+				return "", nil, fmt.Errorf("path escapes from parent")
+			}
+			cur = filepath.Dir(cur)
+			continue
+		}
+		next := filepath.Join(cur, part)
+		n, ok := v.nodes[next]
+		if !ok {
+			return "", nil, errNotExist
+		}
+		if n.kind == "link" {
+			if filepath.IsAbs(n.target) {
+				return "", nil, fmt.Errorf("path escapes from parent")
+			}
+			// the link target is resolved relative to the link's directory,
+			// still confined to the root
+			relDir, err := filepath.Rel(root, cur)
+			if err != nil {
+				return "", nil, err
+			}
+			// uncleaned on purpose: ".." components of the target are
+			// walked one by one from the link's directory
+			cont := n.target + "/" + strings.Join(parts[i+1:], "/")
+			if relDir != "." {
+				cont = relDir + "/" + cont
+			}
+			return v.resolveInRoot(root, cont, depth+1)
+		}
+		cur = next
+	}
+	return cur, v.nodes[cur], nil
+}
+
 var errNotExist = fmt.Errorf("no such file or directory")
 
 func within(p, root string) bool {
@@ -238,7 +287,7 @@ func init() {
 		if filepath.IsAbs(rel) {
 			return tuple{(*value)(nil), m.mkErr("openat "+rel+": path escapes from parent", false)}
 		}
-		rp, n, err := v.resolve(filepath.Join(r.path, rel), r.path, 0)
+		rp, n, err := v.resolveInRoot(r.path, rel, 0)
 		if err != nil {
 			return tuple{(*value)(nil), m.mkErr("openat "+rel+": "+err.Error(), false)}
 		}
@@ -254,7 +303,7 @@ func init() {
 		if filepath.IsAbs(rel) {
 			return tuple{(*value)(nil), m.mkErr("openat "+rel+": path escapes from parent", false)}
 		}
-		rp, n, err := v.resolve(filepath.Join(r.path, rel), r.path, 0)
+		rp, n, err := v.resolveInRoot(r.path, rel, 0)
 		if err != nil {
 			return tuple{(*value)(nil), m.mkErr("openat "+rel+": "+err.Error(), false)}
 		}
